@@ -19,7 +19,7 @@ RULE = ('case = device log table, a log configuration (0..26 variables over all 
         'create/append wire hash) for accepted configurations.')
 ASSUMPTIONS = ['firmware V2 block-creation layout: entries of (type:u8, id:u16); data packet = id, 24-bit timestamp, values',
                'for table variables the stored-type nibble may be the fetch type or the table type (the firmware ignores it)']
-REQUIRED = ['mon.two_syncloggers_on_one_crazyflie', 'mon.deleted_configurations_started_again', 'mon.configs_added_again_after_the_log_table_indices_moved', 'mon.configs_with_a_float_period', 'mon.rejected_configs_used_anyway', 'mon.refused_configurations_started_again', 'mon.configs_accepted', 'mon.configs_rejected', 'mon.create_messages', 'mon.append_messages',
+REQUIRED = ['mon.configs_judged_on_tables_taken_from_the_cache', 'mon.two_syncloggers_on_one_crazyflie', 'mon.deleted_configurations_started_again', 'mon.configs_added_again_after_the_log_table_indices_moved', 'mon.configs_with_a_float_period', 'mon.rejected_configs_used_anyway', 'mon.refused_configurations_started_again', 'mon.configs_accepted', 'mon.configs_rejected', 'mon.create_messages', 'mon.append_messages',
             'mon.data_packets_decoded', 'mon.flag_checks', 'mon.readd_checks', 'mon.synclogger_samples',
             'mon.rejected_then_readded_on_newer_firmware', 'mon.delivered_samples_rechecked_later',
             'mon.synclogger_first_sample_right_behind_start_ack',
@@ -143,9 +143,31 @@ def run(desc, ctx):
     ob = {'data': [], 'added_cb': [], 'started_cb': [], 'error_cb': [], 'notes': [], 'flagchecks': [], 'sync': None,
           'problems': [], 'accept_exc': None, 'create_exc': None, 'vars_after_add': [], 'tx_at_reject': None}
 
+    # a fifth of the cases: the tables come from the cache (an earlier connection to this firmware stored them), so the
+    # acceptance, the creation and the decoding are judged on tables the library did not download in this session
+    cache_dir = None
+    if desc['seed'] % 5 == 2:
+        import tempfile
+        cache_dir = tempfile.mkdtemp(prefix='vf_c05_')
+
     def fn(s):
         dev.now = lambda: s.now
-        cf = Crazyflie()
+        if cache_dir:
+            import os as _os
+            warm = Crazyflie(rw_cache=cache_dir)
+            wdone = ds.Event()
+            warm.connected.add_callback(lambda u: wdone.set())
+            warm.open_link(uri)
+            if not wdone.wait(300.0):
+                ob['problems'].append('connect failed')
+                return
+            s.sleep(0.1)
+            warm.close_link()
+            s.sleep(0.3)
+            del spec.tx[:]
+            if _os.listdir(cache_dir):
+                ob['cached'] = True
+        cf = Crazyflie(rw_cache=cache_dir) if cache_dir else Crazyflie()
         done = ds.Event()
         cf.connected.add_callback(lambda u: done.set())
         cf.open_link(uri)
@@ -363,8 +385,15 @@ def run(desc, ctx):
             if ob.get('thb') is not None:
                 ob['thb'].join()
 
-    _, abort, s = harness.sched_case(fn, seed=desc['seed'], policy=desc['sched'], line_p=harness.line_p_for(desc['seed'], 8, 0.05), horizon=3000.0, max_steps=12_000_000)
+    try:
+        _, abort, s = harness.sched_case(fn, seed=desc['seed'], policy=desc['sched'], line_p=harness.line_p_for(desc['seed'], 8, 0.05), horizon=3000.0, max_steps=12_000_000)
+    finally:
+        if cache_dir:
+            import shutil
+            shutil.rmtree(cache_dir, ignore_errors=True)
     ctx.count('mon.statement_level_preemption_points', s.line_points)
+    if ob.get('cached'):
+        ctx.count('mon.configs_judged_on_tables_taken_from_the_cache')
     ctx.evals()
     rp = dict(desc)
 
